@@ -3,6 +3,7 @@ use crate::chess::movegen;
 use crate::chess::movegen::tables;
 use crate::chess::moves::Move;
 use crate::chess::piece::PieceKind;
+use crate::chess::player::Player;
 use crate::engine::eval::Eval;
 
 fn piece_value(kind: PieceKind) -> Eval {
@@ -87,11 +88,21 @@ pub fn see(game: &Game, mv: Move, threshold: Eval) -> bool {
         // we can use
         let mut attacker_sq = None;
         for potential_attacker_kind in PieceKind::ALL {
-            let mut potential_attacker_squares =
+            let potential_attacker_squares =
                 my_attackers & board.pieces_of_kind(potential_attacker_kind, color);
 
             if potential_attacker_squares.any() {
-                attacker_sq = Some(potential_attacker_squares.pop_lsb_inplace().single());
+                // Choose among equally valued attackers relative to the capturing side, so that the
+                // verdict does not depend on which colour is making the exchange
+                let chosen = match color {
+                    Player::White => potential_attacker_squares.lsb(),
+                    Player::Black => potential_attacker_squares
+                        .flip_vertically()
+                        .lsb()
+                        .flip_vertically(),
+                };
+
+                attacker_sq = Some(chosen.single());
                 break;
             }
         }
